@@ -53,7 +53,8 @@ func c08Texts(rng *rand.Rand) []string {
 	t = append(t, "0", "-0", "+0", "007", "-007", "1", "-1", "42", "", " 1", "1 ", "0x10", "1_000", "1e3", "١٢", "１２", "12a", "--1", "+-1", "+", "-",
 		strings.Repeat("9", 40), "-"+strings.Repeat("9", 40), "1.0", "1.5", "true", "0b1", "0o7", "\t5", "5\n", "1e39", "-1e39", "inf", "NaN", "0x1p-2", "3.4028235e38", "3.5e38", "T", "TRUE", "yes", "False",
 		"1s", "1h30m", "-5ms", "1.5h", "9223372036854775807ns", "9223372036854775808ns", "1d", "1e3s", " 1s", "1H", "+1m", "100000000000h", ".5s", "1.s", "1..s",
-		"µs", "1µs", "1us", "2562047h47m16.854775807s", "2562047h47m16.854775808s", "-2562047h47m16.854775808s", "1h1h", "0.000000001ns", "1m-1s", "t", "F", "1.0e0", "-0.0", "0x1.8p1")
+		"µs", "1µs", "1us", "2562047h47m16.854775807s", "2562047h47m16.854775808s", "-2562047h47m16.854775808s", "1h1h", "0.000000001ns", "1m-1s", "t", "F", "1.0e0", "-0.0", "0x1.8p1",
+		" ", "\t", "  ", "\r\n", " \t ", "\u00a0", "\u2003", "\u0085") // blank but not empty: text that denotes no number
 	return t
 }
 
